@@ -28,6 +28,9 @@ class RetryDriver:
             return f(self.d)
 
     def ask(self, line):
+        import os
+        if os.environ.get("C06_DEBUG"):
+            Path(os.environ["C06_DEBUG"]).write_text(line)
         return self._retry(lambda d: d.ask(line))
 
     def ask_many(self, lines):
